@@ -1,0 +1,17 @@
+//go:build verif
+
+// Contracts for the deductive verifier under /verif (govc). Comment-only file: it adds no code and is
+// compiled only with the build tag "verif".
+
+package errs
+
+// ---- error construction (C16): the "runtime failure" code is raised only for a programming error ------------------
+// f formats the table entry of a code. It gives up (panics with ErrRuntimeFailure, the "internal failure" diagnostic)
+// exactly when the code has no entry or the number of arguments is not the number of placeholders of the entry -
+// never because of what the arguments or the formatted text contain, so no input text can turn a designed diagnostic
+// into an internal failure. strcount is strings.Count (uninterpreted).
+
+//@ func f
+//@   property C16
+//@   panics when !(code in errorFormat) || strcount(errorFormat[code], "%") != len(args)
+//@   ensures result != nil && result.Code_ == code
